@@ -1,6 +1,6 @@
 """C02 -- calls take effect in issue order (per-handle FIFO, real-time precedence)."""
 import random
-import rt_common
+import rt_common, probe, gen_impl
 PID = "C02"
 
 
@@ -12,3 +12,10 @@ def run(rep):
          "fun (A V : Type) sem sem_slf dv => @C02_returned_was_sent A V sem sem_slf dv {i} {w}"],
         rt_common.std_configs(rng, rep.tier, families=False),
         search="c02_search", search_what="two clients, every messaging method, fair schedule; anomalies: 1 a call returned while alive but was never handed to the channel, 2 a client's calls executed out of issue order")
+    runs = []
+    for lib in gen_impl.LIBS:
+        for ch in ((0, 1) if rep.tier == "quick" else (0, 1, 2, 3)):
+            runs.append(["mixed", lib, ch, "clients=%d" % (4 if rep.tier == "quick" else 8), "calls=%d" % (60 if rep.tier == "quick" else 300), "seed=%d" % (rep.seed % 100000)])
+            if PID in ("C02", "C03"):
+                runs.append(["burst", lib, ch, "k=%d" % (ch + 3 if ch else 6)])
+    rt_common.impl_side(rep, PID, runs, lambda a, d: probe.oracle_mixed(d) if a[0] == "mixed" else probe.oracle_burst(d, None if a[2] == 0 else a[2]))
